@@ -85,7 +85,22 @@ def run(ctx, out):
         os.makedirs(d)
         tree = gen_tree(rng, rng.choice([1, 2, 3]))
         pats = gen_patterns(rng, tree)
-        use_flag = rng.random() < 0.9
+        selfnamed = (k % 6 == 5)
+        if selfnamed:
+            # a top-level directory whose name is (or begins with) the spelling of the source itself, and patterns anchored
+            # at the root that name what lies INSIDE it one level further down: `/build` excludes src/build, never
+            # src/src/build — the matcher must see each path relative to the root exactly once
+            inner = gen_tree(rng, 1)
+            if not any(v[0] == "dir" for v in inner[1].values()):
+                inner[1][b"build"] = ("dir", {b"x.o": ("file", 3, {}), b"keep.c": ("file", 4, {})}, {})
+            tree[1][os.fsencode(rng.choice(["src", "srcs", "src.d"]))] = inner
+            for nm, v in list(inner[1].items())[:3]:
+                nm = os.fsdecode(nm)
+                pats.append("/" + nm)
+                if v[0] == "dir" and v[1]:
+                    pats.append(nm + "/" + os.fsdecode(sorted(v[1])[0]))
+            out.count("self_named_subtree")
+        use_flag = rng.random() < 0.9 or selfnamed
         src = os.path.join(d, "src")
         trees.materialise(tree, os.fsencode(src))
         gitxt = "\n".join(pats) + "\n"
@@ -106,7 +121,7 @@ def run(ctx, out):
         driver = rng.choice(["parfile", "parblock"])
         os.mkdir(os.path.join(d, "dst"))
         # how the source is spelled on the command line must not matter
-        spelling = rng.choice(["abs", "rel", "dotrel", "dotdot", "slash", "abs"])
+        spelling = rng.choice(["abs", "rel", "dotrel", "dotdot", "slash", "abs"]) if not selfnamed else rng.choice(["rel", "rel", "slash", "dotrel"])
         os.mkdir(os.path.join(d, "sub"))
         sarg = {"abs": src, "rel": "src", "dotrel": "./src", "dotdot": "sub/../src", "slash": "src/"}[spelling]
         out.count("spelling_" + spelling)
